@@ -350,6 +350,34 @@ func resolveNonce(p *model.Proxy, short, k string) string {
 	return ""
 }
 
+// canonSegment puts the responses of ONE handler call into the order the model prints them in: the types of
+// PushOrder keep the order the real code sent them in (so a change of that order is visible), only the
+// unordered types (ECDS, NDS: Go map order) are moved behind them in a fixed order.
+func canonSegment(ws []wireResp) {
+	key := func(w wireResp) int {
+		switch w.short {
+		case "ECDS":
+			return 1
+		case "NDS":
+			return 2
+		}
+		return 0
+	}
+	sort.SliceStable(ws, func(i, j int) bool { return key(ws[i]) < key(ws[j]) })
+}
+
+func (s *sut) pushSotw() {
+	n := len(s.ss.got)
+	_ = pxds.VerifC03PushConnection(s.srv, s.scon, s.pushRequest())
+	canonSegment(s.ss.got[n:])
+}
+
+func (s *sut) pushDelta() {
+	n := len(s.ds.got)
+	_ = pxds.VerifC03PushConnectionDelta(s.srv, s.dcon, s.pushRequest())
+	canonSegment(s.ds.got[n:])
+}
+
 func (s *sut) deltaRequest(short string, sub, unsub, init []string, nonce string, errTok string) {
 	req := &discovery.DeltaDiscoveryRequest{
 		TypeUrl: typeURL[short], ResourceNamesSubscribe: sub, ResourceNamesUnsubscribe: unsub,
@@ -361,14 +389,18 @@ func (s *sut) deltaRequest(short string, sub, unsub, init []string, nonce string
 			req.InitialResourceVersions[n] = "retained"
 		}
 	}
+	n := len(s.ds.got)
 	_ = pxds.VerifC03ProcessDeltaRequest(s.srv, req, s.dcon)
+	canonSegment(s.ds.got[n:])
 }
 
 func (s *sut) sotwRequest(short string, names []string, nonce string, errTok string) {
 	req := &discovery.DiscoveryRequest{
 		TypeUrl: typeURL[short], ResourceNames: names, ResponseNonce: nonce, ErrorDetail: errDetail(errTok),
 	}
+	n := len(s.ss.got)
 	_ = pxds.VerifC03ProcessRequest(s.srv, req, s.scon)
+	canonSegment(s.ss.got[n:])
 }
 
 // ---------------------------------------------------------------- stream book
@@ -594,6 +626,8 @@ type equivSys struct {
 	sc, dc  *client
 	// types for which a response reached the SotW / delta client during the last op
 	gotS, gotD sets.String
+	// the responses delivered to the two clients during the last op, in delivery order: type/resources/removed
+	traceS, traceD []string
 }
 
 var genClass = map[string]string{
@@ -688,7 +722,18 @@ func showHeld(c *client) string {
 	return strings.Join(parts, " ")
 }
 
-func (e *equivSys) show() string { return "S:" + showHeld(e.sc) + " D:" + showHeld(e.dc) }
+func showTrace(t []string) string {
+	if len(t) == 0 {
+		return "-"
+	}
+	return strings.Join(t, ",")
+}
+
+// show: what the two clients hold, and every response that was delivered to them during the op (a response
+// that leaves the held maps unchanged - e.g. the forced EDS push after a CDS request - is visible only here)
+func (e *equivSys) show() string {
+	return "S:" + showHeld(e.sc) + " D:" + showHeld(e.dc) + " | s=" + showTrace(e.traceS) + " d=" + showTrace(e.traceD)
+}
 
 // deliver hands every captured response to its client, which applies and ACKs it; repeats while
 // the ACKs trigger further responses (bounded).
@@ -704,9 +749,7 @@ func (e *equivSys) deliverBudget(bs, bd int) {
 		if len(sg) == 0 && len(dg) == 0 {
 			return
 		}
-		// canonical order (PushOrder, then ECDS, NDS): the real order of the unordered types is Go map order
-		sort.SliceStable(sg, func(i, j int) bool { return wireRank[sg[i].short] < wireRank[sg[j].short] })
-		sort.SliceStable(dg, func(i, j int) bool { return wireRank[dg[i].short] < wireRank[dg[j].short] })
+		// the responses are in the order the real code sent them (canonSegment per handler call)
 		if len(sg) > bs {
 			sg = sg[:bs]
 		}
@@ -717,6 +760,7 @@ func (e *equivSys) deliverBudget(bs, bd int) {
 		bd -= len(dg)
 		for _, w := range sg {
 			e.gotS.Insert(w.short)
+			e.traceS = append(e.traceS, fmt.Sprintf("%s/%d/0", w.short, len(w.res)))
 			ct := e.sc.ty[w.short]
 			if isWildcardType(w.short) {
 				ct.held = map[string]int{}
@@ -731,6 +775,7 @@ func (e *equivSys) deliverBudget(bs, bd int) {
 		}
 		for _, w := range dg {
 			e.gotD.Insert(w.short)
+			e.traceD = append(e.traceD, fmt.Sprintf("%s/%d/%d", w.short, len(w.res), len(w.removed)))
 			ct := e.dc.ty[w.short]
 			for _, r := range w.res {
 				ct.held[r.name] = r.ver
@@ -761,6 +806,7 @@ func (e *equivSys) apply(f []string) (out string) {
 			out = "crash"
 		}
 	}()
+	e.traceS, e.traceD = nil, nil
 	switch f[0] {
 	case "case":
 		*e = *newEquiv(f[2])
@@ -790,6 +836,17 @@ func (e *equivSys) apply(f []string) (out string) {
 	case "sub":
 		t := f[1]
 		names := sets.SortedList(sets.New(wire.DecList(f[2])...))
+		// flag x (C05): the first request of the stream for this type is the NACK the proxy could not send
+		// before the previous stream broke (error_detail set), for both clients
+		nackS, nackD := "-", "-"
+		if len(f) > 3 && strings.Contains(f[3], "x") {
+			if !e.sc.ty[t].subscribed {
+				nackS = "e:" + wire.Enc("rejected on the previous stream")
+			}
+			if !e.dc.ty[t].subscribed {
+				nackD = "e:" + wire.Enc("rejected on the previous stream")
+			}
+		}
 		// SotW client
 		sc := e.sc.ty[t]
 		for _, n := range diffSorted(sc.sub, names) {
@@ -806,7 +863,7 @@ func (e *equivSys) apply(f []string) (out string) {
 		} else {
 			// a reconnecting client presents the nonce it retained from the previous stream
 			sc.subscribed, sc.sub = true, names
-			e.sotwRequest(t, names, sc.nonce, "-")
+			e.sotwRequest(t, names, sc.nonce, nackS)
 		}
 		// delta client
 		dc := e.dc.ty[t]
@@ -840,7 +897,7 @@ func (e *equivSys) apply(f []string) (out string) {
 				}
 			}
 			// first request on a stream: report everything retained (initial_resource_versions)
-			e.deltaRequest(t, sub, nil, sortedNames(dc.held), firstNonce, "-")
+			e.deltaRequest(t, sub, nil, sortedNames(dc.held), firstNonce, nackD)
 		} else {
 			add := diffSorted(names, dc.sub)
 			rem := diffSorted(dc.sub, names)
@@ -861,35 +918,23 @@ func (e *equivSys) apply(f []string) (out string) {
 		for _, t := range typeOrder {
 			e.world[t] = e.pending[t]
 		}
-		_ = pxds.VerifC03PushConnection(e.srv, e.scon, e.pushRequest())
-		_ = pxds.VerifC03PushConnectionDelta(e.srv, e.dcon, e.pushRequest())
+		e.pushSotw()
+		e.pushDelta()
 		for _, t := range typeOrder {
 			e.changed[t] = sets.New[string]()
 		}
 		e.deliverBudget(k, k)
-		e.ss.got, e.ds.got = nil, nil
-		return e.apply([]string{"reconnect"})
+		e.reconnect()
+		e.gotS, e.gotD = sets.New[string](), sets.New[string]()
+		return e.show()
 	case "reconnect":
-		// both streams break; the server forgets everything about them (fresh proxies, fresh watch
-		// tables, possibly another instance); the clients keep what they hold, their nonces and
-		// subscriptions and will re-send the latter (`sub` ops). The new connection starts from the
-		// latest published snapshot.
-		for _, t := range typeOrder {
-			e.world[t] = e.pending[t]
-			e.sc.ty[t].subscribed = false
-			e.dc.ty[t].subscribed = false
-		}
-		e.ss, e.ds = &sotwStream{}, &deltaStream{}
-		e.dproxy = newProxy("delta-proxy-2", e.push)
-		e.sproxy = newProxy("sotw-proxy-2", e.push)
-		e.dcon = pxds.VerifNewDeltaConnection(e.dproxy, e.ds)
-		e.scon = pxds.VerifNewConnection(e.sproxy, e.ss)
+		e.reconnect()
 	case "pushall":
 		for _, t := range typeOrder {
 			e.world[t] = e.pending[t]
 		}
-		_ = pxds.VerifC03PushConnection(e.srv, e.scon, e.pushRequest())
-		_ = pxds.VerifC03PushConnectionDelta(e.srv, e.dcon, e.pushRequest())
+		e.pushSotw()
+		e.pushDelta()
 		for _, t := range typeOrder {
 			e.changed[t] = sets.New[string]()
 		}
@@ -898,6 +943,22 @@ func (e *equivSys) apply(f []string) (out string) {
 	}
 	e.deliver()
 	return e.show()
+}
+
+// reconnect: both streams break; the server forgets everything about them (fresh proxies, fresh watch
+// tables, possibly another instance); the clients keep what they hold, their nonces and subscriptions and
+// will re-send the latter (`sub` ops). The new connection starts from the latest published snapshot.
+func (e *equivSys) reconnect() {
+	for _, t := range typeOrder {
+		e.world[t] = e.pending[t]
+		e.sc.ty[t].subscribed = false
+		e.dc.ty[t].subscribed = false
+	}
+	e.ss, e.ds = &sotwStream{}, &deltaStream{}
+	e.dproxy = newProxy("delta-proxy-2", e.push)
+	e.sproxy = newProxy("sotw-proxy-2", e.push)
+	e.dcon = pxds.VerifNewDeltaConnection(e.dproxy, e.ds)
+	e.scon = pxds.VerifNewConnection(e.sproxy, e.ss)
 }
 
 func genEquiv(stream string, seed uint64, n int, outp string) {
@@ -909,6 +970,10 @@ func genEquiv(stream string, seed uint64, n int, outp string) {
 		out.Line("case", strconv.Itoa(c), stream)
 		types := wire.Subset(r, equivTypes, 1, 2)
 		if len(types) == 0 {
+			types = []string{"CDS", "EDS"}
+		}
+		if stream == "reconn" && r.Chance(1, 3) {
+			// the pair with a dependency: a CDS request forces an EDS push when EDS is already watched on the stream
 			types = []string{"CDS", "EDS"}
 		}
 		length := 3 + r.Intn(25)
@@ -931,7 +996,12 @@ func genEquiv(stream string, seed uint64, n int, outp string) {
 						out.Line("reconnect")
 					}
 					// re-send some or all subscriptions in a random order, possibly with changes made while away
-					for _, t2 := range wire.Subset(r, types, 4, 5) {
+					resend := wire.Subset(r, types, 4, 5)
+					for i := len(resend) - 1; i > 0; i-- { // in any order: EDS before CDS as well
+						j := r.Intn(i + 1)
+						resend[i], resend[j] = resend[j], resend[i]
+					}
+					for _, t2 := range resend {
 						if r.Chance(1, 3) {
 							out.Line("world", t2, genResList(r))
 						}
@@ -947,6 +1017,10 @@ func genEquiv(stream string, seed uint64, n int, outp string) {
 						}
 						if len(names) == 0 && r.Chance(1, 2) {
 							flags += "e"
+						}
+						// the first request is the NACK the proxy had queued when the stream broke (error_detail set)
+						if r.Chance(1, 6) {
+							flags += "x"
 						}
 						if flags == "" {
 							out.Line("sub", t2, wire.EncList(names))
@@ -1004,9 +1078,10 @@ func oracleLines(stream, in string) []string {
 			}
 			continue
 		}
-		firstS, firstD := false, false
+		firstS, firstD, edsWatchedD := false, false, false
 		if f[0] == "sub" {
 			firstS, firstD = !e.sc.ty[f[1]].subscribed, !e.dc.ty[f[1]].subscribed
+			edsWatchedD = e.dc.ty["EDS"].subscribed && len(e.dc.ty["EDS"].sub) > 0
 		}
 		res := e.apply(f)
 		if res == "crash" && verdict == "" {
@@ -1021,6 +1096,11 @@ func oracleLines(stream, in string) []string {
 			}
 			if wants && firstD && !e.gotD.Contains(f[1]) {
 				verdict = fmt.Sprintf("FAIL first-request-unanswered op=%d type=%s client=delta", idx-1, f[1])
+			}
+			// delta: the first CDS request of a stream on which EDS is already watched (a reconnecting proxy may
+			// ask for EDS first) is followed by an EDS response, whatever nonce it presents: the clusters warm
+			if f[1] == "CDS" && firstD && edsWatchedD && verdict == "" && !e.gotD.Contains("EDS") {
+				verdict = fmt.Sprintf("FAIL cds-request-without-eds-push op=%d client=delta", idx-1)
 			}
 		}
 		if f[0] != "pushall" || verdict != "" {
